@@ -1564,6 +1564,11 @@ func directed() []script {
 		// the lock is given back by another connection of the holder while a commit is being built
 		{NoModel: true, Src: "directed/release-during-commit", H: []step{
 			mk("Acquire", none), mk("RTx", none), mk("RTx", gArgs{F: "none", Kind: "release-race"}), mk("LWBegin", gArgs{}), mk("LWCommit", gArgs{})}},
+		// the holder is cut off from its primary (stream gone, no primary known) and its application commits:
+		// the commit cannot reach the primary, so it must not return success
+		{NoModel: true, Src: "directed/holder-loses-its-primary", H: []step{
+			mk("Acquire", none), mk("RTx", none), mk("Block", gArgs{N: "R"}), mk("RTx", none), mk("Unblock", gArgs{N: "R"}),
+			mk("Expire", gArgs{N: "P"}), mk("LWBegin", gArgs{}), mk("LWCommit", gArgs{})}},
 		{NoModel: true, Src: "directed/lagging-holder", H: []step{
 			mk("Lag", gArgs{}), mk("LWBegin", gArgs{}), mk("LWCommit", gArgs{}), mk("LagWait", gArgs{}), mk("Acquire", none), mk("RTx", none), mk("Release", none)}},
 	}
